@@ -1,4 +1,5 @@
-(* Extraction for the C20 driver (state-space enumeration, trace inclusion). ExtrOcamlBasic only. *)
-From Coq Require Import Extraction ExtrOcamlBasic.
+(* Extraction for the C20 driver (state-space enumeration, trace inclusion). ExtrOcamlBasic only.
+   Z.of_nat is extracted only because ocaml/common/conv.ml mentions the types z and positive. *)
+From Coq Require Import Extraction ExtrOcamlBasic ZArith.
 Require Import MW.Sched.Handshake.
-Extraction "model.ml" step_l step init_state rank observable quit cfg_found cfg_repaired.
+Extraction "model.ml" step_l step init_state rank observable quit cfg_found cfg_repaired Z.of_nat.
